@@ -74,13 +74,11 @@ Definition get_any_method_ref (p : pool) (i : N) : res cval :=
 
 (* as_method_handle: which kind of reference each reference_kind demands *)
 Definition handle_of (p : pool) (kind ref : N) : res cval :=
-  match kind with
-  | 1 | 2 | 3 | 4 => do r <- get_field_ref p ref; Ok (VHandle kind r)
-  | 5 | 8 => do r <- get_method_ref p ref; Ok (VHandle kind r)
-  | 6 | 7 => do r <- get_any_method_ref p ref; Ok (VHandle kind r)
-  | 9 => do r <- get_imethod_ref p ref; Ok (VHandle kind r)
-  | _ => Err
-  end.
+  if (1 <=? kind) && (kind <=? 4) then do r <- get_field_ref p ref; Ok (VHandle kind r)
+  else if (kind =? 5) || (kind =? 8) then do r <- get_method_ref p ref; Ok (VHandle kind r)
+  else if (kind =? 6) || (kind =? 7) then do r <- get_any_method_ref p ref; Ok (VHandle kind r)
+  else if kind =? 9 then do r <- get_imethod_ref p ref; Ok (VHandle kind r)
+  else Err.
 Definition get_method_handle (p : pool) (i : N) : res cval :=
   do e <- pget p i; match e with EMethodHandle k r => handle_of p k r | _ => Err end.
 Definition get_method_type (p : pool) (i : N) : res cval :=
@@ -160,22 +158,20 @@ Definition get_package (p : pool) (i : N) : res cval :=
 
 (* the accessors by number: 0..6 are the operand kinds of Opcodes.v (RCp8/RCp16) *)
 Definition resolve_kind (p : pool) (b : bsms) (kind i : N) : res cval :=
-  match kind with
-  | 0 => get_loadable nesting_fuel p b i
-  | 1 => get_field_ref p i
-  | 2 => get_method_ref p i
-  | 3 => get_any_method_ref p i
-  | 4 => get_imethod_ref p i
-  | 5 => get_invoke_dynamic p b i
-  | 6 => do s <- get_class p i; Ok (VClass s)
-  | 7 => get_constant_value p i
-  | 8 => do s <- get_utf8 p i; Ok (VUtf8 s)
-  | 9 => get_method_handle p i
-  | 10 => do nd <- get_nt p i; Ok (VNameType (fst nd) (snd nd))
-  | 11 => get_module p i
-  | 12 => get_package p i
-  | _ => Err
-  end.
+  if kind =? 0 then get_loadable nesting_fuel p b i
+  else if kind =? 1 then get_field_ref p i
+  else if kind =? 2 then get_method_ref p i
+  else if kind =? 3 then get_any_method_ref p i
+  else if kind =? 4 then get_imethod_ref p i
+  else if kind =? 5 then get_invoke_dynamic p b i
+  else if kind =? 6 then (do s <- get_class p i; Ok (VClass s))
+  else if kind =? 7 then get_constant_value p i
+  else if kind =? 8 then (do s <- get_utf8 p i; Ok (VUtf8 s))
+  else if kind =? 9 then get_method_handle p i
+  else if kind =? 10 then (do nd <- get_nt p i; Ok (VNameType (fst nd) (snd nd)))
+  else if kind =? 11 then get_module p i
+  else if kind =? 12 then get_package p i
+  else Err.
 
 (* equality of resolved values (for the correspondence check) *)
 Fixpoint cval_eqb (a b : cval) : bool :=
